@@ -125,10 +125,13 @@ def run_item(item):
                 accept = item.get('accept_props') or [target]
                 if kind == 'violation' and exc.prop not in accept:
                     kind = 'foreign:' + exc.prop
+                elif kind == 'violation' and exc.prop != target and item.get('relabel'):
+                    exc.clause = exc.prop + ':' + exc.clause
+                    exc.prop = target
                 if kind == 'ub':
-                    if item.get('ub_prop', 'C02') in accept:
+                    if item.get('ub_prop', 'C02') in accept or target in ('C12', 'C13', 'C10', 'C11', 'C16'):
                         kind = 'violation'
-                        exc = driver.Violation(item.get('ub_prop', 'C02') if target not in ('C12', 'C13', 'C10', 'C11', 'C16') else target,
+                        exc = driver.Violation(item.get('ub_prop', 'C02') if target not in ('C12', 'C13', 'C10', 'C11', 'C16', 'C09', 'C07') else target,
                                                'memory:' + exc.kind, exc.detail, sc.model_values(None))
                         exc.stack = getattr(out[1], 'stack', [])
                     else:
@@ -141,7 +144,7 @@ def run_item(item):
                                                   stack=getattr(exc, 'stack', []), trace=sc.trace, tags=item.get('tags', []),
                                                   subject=sc.subject, rec_same=dict(sc.rec_same), opts=item.get('opts')))
                 if item.get('collect'):
-                    per_layout.append(item['collect'](sc, out))
+                    per_layout.append(item['collect'](sc, out, kind))
                 if item.get('post_path'):
                     item['post_path'](sc, out, res)
                 if res['sample'] is None and kind in ('ok', 'panic', 'abort'):
@@ -254,6 +257,12 @@ def replay_violation(P, native, v, scratch):
     model_trace = scr.normalise(sc.trace)
     model_out = out[0]
     ncs = cs if is_mem else instrumented(cs, links=(v['prop'] == 'C08'))
+    # a latent state violation (a table naming a released block, a wrong counter) may surface natively only as a
+    # memory error later in the same history: run the model once more with the monitors only
+    latent_mem = False
+    if not is_mem:
+        sc2, out2 = driver.run_path(P, cs, [], lf, False, set(), dict(v.get('opts') or {}, target=v['prop'], panics_ok=True, abort_ok=True))
+        latent_mem = out2[0] == 'ub'
     # 2. native, plain + perturbed layouts
     how = []
     confirmed = False
@@ -266,22 +275,27 @@ def replay_violation(P, native, v, scratch):
         nt = scr.normalise(res.get('replay', {}).get('trace', []))
         bad = [t for t in nt if t[0] == 'raw' and 'CANARY-BAD' in t[1]]
         crashed = rc != 0 or 'replay' not in res or res['replay']['end'] is None
-        if is_mem:
-            if crashed or bad or ['uncaught-panic'] in nt:
+        if is_mem or latent_mem:
+            if crashed or bad or (['uncaught-panic'] in nt and ['uncaught-panic'] not in model_trace):
                 confirmed = True
-                how.append('native seed %d: %s' % (seed, 'crash rc=%s' % rc if crashed else ('canary' if bad else 'panic')))
+                how.append('native seed %d: %s%s' % (seed, 'crash rc=%s' % rc if crashed else ('canary' if bad else 'panic'),
+                                                      ' (the model predicts a memory error later in this history)' if latent_mem else ''))
                 break
-        else:
+        if not is_mem:
             k = len(model_trace)
             if k > 0 and nt[:k] == model_trace and model_out in ('violation', 'ub'):
                 confirmed = True
                 how.append('native seed %d: trace equals the model trace up to the violating observation' % seed)
                 break
-            if model_out in ('violation', 'ub') and v['clause'] in ('library-panic',) and ['uncaught-panic'] in nt:
+            if model_out in ('violation', 'ub') and v['clause'].endswith('library-panic') and ['uncaught-panic'] in nt:
                 confirmed = True
                 how.append('native seed %d: panic reproduced' % seed)
                 break
         how.append('native seed %d: not reproduced (rc=%s)' % (seed, rc))
+    if not confirmed and latent_mem:
+        ok, msg = miri_replay(cs, scratch)
+        how.append(msg)
+        confirmed = ok
     if not confirmed and is_mem:
         ok, msg = miri_replay(cs, scratch)
         how.append(msg)
